@@ -706,3 +706,203 @@ Proof.
   intros h v rest N. open_lib (U "arrayLength"). table_entry (U "arrayLength") k_arrayLength. validate_step.
   destruct v; try reflexivity. exfalso. eapply N. reflexivity.
 Qed.
+
+(* ====================================================================== what a successful validation guarantees *)
+Definition from_default (sp : argspec) (v : value) : Prop := exists d, as_default sp = Some d /\ v = lit_value d.
+Definition arg_conforms (sp : argspec) (a : varg) : Prop :=
+  match a with
+  | AL _ => as_last sp = true
+  | AV v => as_last sp = false /\
+      (from_default sp v \/
+       match as_type sp with
+       | None => True
+       | Some TBoolean => exists b, v = VBool b
+       | Some t => (v = VNull /\ as_nullable sp = true) \/
+                   (type_ok t v = true /\ forall n, t = TNumber -> v = VNum n -> number_fails sp n = Some false)
+       end)
+  end.
+
+Lemma validate_conforms : forall h specs args va,
+  args_validate h specs args = VOk va -> Forall2 arg_conforms specs va.
+Proof.
+  induction specs as [|sp specs IH]; intros args va H.
+  - destruct args; simpl in H; inv H. constructor.
+  - destruct args as [|a args]; simpl in H.
+    + destruct (as_last sp) eqn:L.
+      * apply vcons_ok in H. destruct H as (t & H & ->). constructor; [exact L | eauto].
+      * destruct (as_default sp) as [d|] eqn:D.
+        { apply vcons_ok in H. destruct H as (t & H & ->). constructor; [|eauto]. split; auto. left. exists d. auto. }
+        destruct (as_type sp) as [[]|] eqn:T;
+          try (destruct (as_nullable sp) eqn:Nl; [|discriminate]);
+          apply vcons_ok in H; destruct H as (t & H & ->); (constructor; [|eauto]); split; auto; right; rewrite T; eauto.
+    + destruct (as_last sp) eqn:L.
+      * apply vcons_ok in H. destruct H as (t & H & ->). constructor; [exact L | eauto].
+      * destruct (as_type sp) as [ty|] eqn:T.
+        2:{ apply vcons_ok in H. destruct H as (t & H & ->). constructor; [|eauto]. split; auto. right. rewrite T. exact I. }
+        destruct ty;
+          try (destruct (value_boolean h a) eqn:VB; [|discriminate];
+               apply vcons_ok in H; destruct H as (t & H & ->); (constructor; [|eauto]); split; auto; right; rewrite T; eauto; fail);
+          (destruct a;
+            try (destruct (as_nullable sp) eqn:Nl; [|discriminate];
+                 apply vcons_ok in H; destruct H as (t & H & ->); (constructor; [|eauto]); split; auto; right; rewrite T; left; auto; fail);
+            simpl in H; try discriminate;
+            try (apply vcons_ok in H; destruct H as (t & H & ->); (constructor; [|eauto]); split; auto; right; rewrite T; right;
+                 split; [reflexivity | intros; discriminate]; fail)).
+        (* the number case *)
+        destruct (number_fails sp n) as [[]|] eqn:NF; try discriminate.
+        apply vcons_ok in H. destruct H as (t & H & ->). constructor; [|eauto]. split; auto. right. rewrite T. right.
+        split; [reflexivity|]. intros n0 _ E. inv E. exact NF.
+Qed.
+
+(* a PRESENT argument at a typed position survives validation only if it has that type (or is null and nullable) *)
+Lemma validate_present : forall h specs args va i sp v t,
+  args_validate h specs args = VOk va ->
+  nth_error args i = Some v -> nth_error specs i = Some sp ->
+  (forall j sp', (j <= i)%nat -> nth_error specs j = Some sp' -> as_last sp' = false) ->
+  as_type sp = Some t -> t <> TBoolean ->
+  (v = VNull /\ as_nullable sp = true) \/ type_ok t v = true.
+Proof.
+  induction specs as [|sp0 specs IH]; intros args va i sp v t H A Sp NL T NB.
+  - destruct i; discriminate.
+  - destruct args as [|a args]; [destruct i; discriminate|].
+    assert (L0 : as_last sp0 = false) by (apply (NL O sp0); [lia|reflexivity]).
+    simpl in H. rewrite L0 in H.
+    destruct i as [|i]; simpl in A, Sp.
+    + inv A. inv Sp. rewrite T in H. destruct t; try congruence;
+        (destruct v; simpl in H; try discriminate; auto;
+         destruct (as_nullable sp) eqn:Nl; [auto|discriminate]).
+    + assert (exists t0, args_validate h specs args = VOk t0) as [t0 H0].
+      { destruct (as_type sp0) as [ty|];
+          [destruct ty; repeat break_match_hyp; try discriminate; apply vcons_ok in H; destruct H as (t0 & H & _); eauto
+          | apply vcons_ok in H; destruct H as (t0 & H & _); eauto]. }
+      eapply IH; eauto. intros j sp' Hj Hs. apply (NL (S j) sp'); [lia|exact Hs].
+Qed.
+
+(* WRONG TYPE, every function of the table, every typed position, every value of another type (booleans where a number is
+   declared included): the call fails, nothing changes, and a ValueArgsError carries the table's failure value *)
+Theorem lib_wrong_type : forall f k specs fv args h i sp v t r h',
+  assoc f raw_table = None -> assoc f lib_table = Some k -> assoc_spec f gen_arg_specs = Some (specs, fv) ->
+  nth_error specs i = Some sp -> as_type sp = Some t -> t <> TBoolean ->
+  (forall j sp', (j <= i)%nat -> nth_error specs j = Some sp' -> as_last sp' = false) ->
+  nth_error args i = Some v -> type_ok t v = false -> (v <> VNull \/ as_nullable sp = false) ->
+  lib f args h = (r, h') ->
+  h' = h /\ is_fail r = true /\ (forall x, r = LArgsErr x -> x = failure_of f args).
+Proof.
+  intros f k specs fv args h i sp v t r h' R T E S Ty NB NL A W NN H.
+  assert (F : is_fail r = true).
+  { destruct r; try reflexivity. exfalso. unfold lib in H. rewrite R, T in H.
+    apply validated_cases in H. destruct H as [[_ [H|[H|H]]]|(specs' & fv' & va & E' & V & K)]; try discriminate.
+    rewrite E in E'. inv E'.
+    destruct (validate_present _ _ _ _ _ _ _ _ V A S NL Ty NB) as [[-> Nl]|Ok]; [|congruence].
+    destruct NN; congruence. }
+  split; [eapply lib_failure_atomic; eauto|]. split; auto.
+  intros x ->. eapply lib_failure_value; eauto.
+Qed.
+
+(* non-vacuity: a boolean where arrayGet wants its index, and an object where stringSlice wants a string *)
+Example lib_wrong_type_bool_index : forall h l, exists r,
+  lib (U "arrayGet") [VArr l; VBool true] h = (r, h) /\ r = LArgsErr VNull.
+Proof. intros. eexists. split; reflexivity. Qed.
+
+(* ====================================================================== histories *)
+Lemma lib_heap_grows : forall f args h r h', lib f args h = (r, h') -> (length h <= length h')%nat.
+Proof.
+  intros. apply lib_shape in H. destruct H as [->|l c _ _ -> _|c -> _]; auto.
+  - rewrite hset_length. auto.
+  - rewrite app_length. simpl. lia.
+Qed.
+
+(* the container a statement passes as first argument, in the environment it runs in *)
+Definition op_target (e : env) (o : op) : option loc :=
+  match o with
+  | OCall f l => match eval_args e l with Some vs => arg_loc vs | None => None end
+  | _ => None
+  end.
+(* the containers passed as first argument anywhere in a history *)
+Fixpoint touched (ops : list op) (st : env * heap) : list loc :=
+  match ops with
+  | [] => []
+  | o :: t => (match op_target (fst st) o with Some l => [l] | None => [] end)
+              ++ (match run_op (Some st) o with Some st' => touched t st' | None => [] end)
+  end.
+
+Lemma run_op_step : forall e h o e' h', run_op (Some (e, h)) o = Some (e', h') ->
+  (length h <= length h')%nat /\ (exists v, e' = e ++ [v])
+  /\ forall l, (l < length h)%nat -> op_target e o <> Some l -> hget h' l = hget h l.
+Proof.
+  intros e h o e' h' H. destruct o as [f la|n|v]; simpl in H.
+  - destruct (eval_args e la) as [vs|] eqn:E; [|discriminate].
+    destruct (lib f vs h) as [r h1] eqn:L. destruct (wrapper r) as [v|]; [|discriminate]. inv H.
+    split; [eapply lib_heap_grows; eauto|]. split; [eauto|].
+    intros l Hl T. simpl in T. rewrite E in T. eapply lib_frame; eauto.
+  - destruct (nth_error e n); inv H. eauto.
+  - inv H. eauto.
+Qed.
+
+Lemma fold_run_none : forall ops, fold_left run_op ops None = None.
+Proof. induction ops; simpl; auto. Qed.
+
+(* HISTORY-FRAME: after ANY history of calls, a container that was never passed as the first argument of a call still has
+   exactly its old contents (whatever aliases exist, whatever else happened), the heap only grew, and the variables were
+   only appended to *)
+Theorem history_frame : forall ops st st', run_ops ops st = Some st' ->
+  (length (snd st) <= length (snd st'))%nat /\ (exists e2, fst st' = fst st ++ e2 /\ length e2 = length ops)
+  /\ forall l, (l < length (snd st))%nat -> ~ In l (touched ops st) -> hget (snd st') l = hget (snd st) l.
+Proof.
+  unfold run_ops. induction ops as [|o ops IH]; intros [e h] st' H.
+  - simpl in H. inv H. split; auto. split; [exists []; rewrite app_nil_r; auto|]. auto.
+  - change (fold_left run_op (o :: ops) (Some (e, h))) with (fold_left run_op ops (run_op (Some (e, h)) o)) in H.
+    destruct (run_op (Some (e, h)) o) as [[e1 h1]|] eqn:R; [|rewrite fold_run_none in H; discriminate].
+    destruct (run_op_step _ _ _ _ _ R) as (G & (v & ->) & F).
+    destruct (IH _ _ H) as (G2 & (e2 & E2 & L2) & F2). simpl in *.
+    split; [lia|]. split.
+    + exists (v :: e2). rewrite E2, <- app_assoc. simpl. auto.
+    + intros l Hl N. rewrite R in N. rewrite F2; [apply F; auto|lia|].
+      * intro T. apply N. rewrite T. simpl. auto.
+      * intro I. apply N. apply in_or_app. auto.
+Qed.
+
+(* ---- strings are immutable code-point sequences: every string function leaves the heap alone or only allocates ------- *)
+Theorem stringCharCodeAt_spec : forall h s n z c, integral n z -> 0 <= z < len s -> nth_error s (Z.to_nat z) = Some c ->
+  lib (U "stringCharCodeAt") [VStr s; VNum n] h = (LOk (VNum (NInt (Z.of_N c))), h).
+Proof.
+  intros h s n z c Hn Hz Hc. unfold len in Hz.
+  open_lib (U "stringCharCodeAt"). table_entry (U "stringCharCodeAt") k_stringCharCodeAt. validate_step. idx n z Hn.
+  replace (z <? 0) with false by lia. validate_step. unfold k_stringCharCodeAt. rewrite (index_guard_integral n z _ Hn).
+  replace (Z.of_nat (length s) <=? z) with false by lia. rewrite py_index_in_range, Hc by lia. reflexivity.
+Qed.
+
+Theorem stringSlice_spec : forall h s n1 st n2 e, integral n1 st -> integral n2 e -> 0 <= st <= len s -> 0 <= e <= len s ->
+  lib (U "stringSlice") [VStr s; VNum n1; VNum n2] h = (LOk (VStr (skipn (Z.to_nat st) (firstn (Z.to_nat e) s))), h).
+Proof.
+  intros h s n1 st n2 e H1 H2 Hs He. unfold len in *.
+  open_lib (U "stringSlice"). table_entry (U "stringSlice") k_stringSlice. validate_step. idx n1 st H1.
+  replace (st <? 0) with false by lia. validate_step. idx n2 e H2. replace (e <? 0) with false by lia. validate_step.
+  unfold k_stringSlice. cbn [as_num]. unfold len.
+  rewrite (num_gt_integral _ _ _ H1), (num_gt_integral _ _ _ H2).
+  replace (Z.of_nat (length s) <? st) with false by lia. replace (Z.of_nat (length s) <? e) with false by lia.
+  destruct H1 as [-> _]. destruct H2 as [-> _]. unfold py_slice. rewrite !py_bound_in_range by lia. reflexivity.
+Qed.
+
+Theorem stringLength_spec : forall h s, lib (U "stringLength") [VStr s] h = (LOk (VNum (NInt (len s))), h).
+Proof. intros. open_lib (U "stringLength"). table_entry (U "stringLength") k_stringLength. validate_step. reflexivity. Qed.
+
+(* a float spelling of an index: 2.0 is integral with value 2 *)
+Example integral_float_two : integral (NFlt (Z_to_sf 2)) 2.
+Proof. split; vm_compute; reflexivity. Qed.
+Example arraySet_float_index : forall h l a b c v, hget h l = Some (CArr [a; b; c]) ->
+  lib (U "arraySet") [VArr l; VNum (NFlt (Z_to_sf 2)); v] h = (LOk v, hset h l (CArr [a; b; v])).
+Proof. intros. rewrite (arraySet_spec h l [a; b; c] _ 2 v H integral_float_two); [reflexivity | unfold len; simpl; lia]. Qed.
+
+(* a copy is not affected by any later history that does not pass the copy itself *)
+Example copy_is_independent : forall ops e h l xs st',
+  hget h l = Some (CArr xs) ->
+  let h1 := h ++ [CArr xs] in
+  lib (U "arrayCopy") [VArr l] h = (LOk (VArr (length h)), h1) /\
+  (run_ops ops (e, h1) = Some st' -> ~ In (length h) (touched ops (e, h1)) -> hget (snd st') (length h) = Some (CArr xs)).
+Proof.
+  intros ops e h l xs st' Hl h1. split; [apply arrayCopy_spec; auto|].
+  intros R N. destruct (history_frame _ _ _ R) as (_ & _ & F). simpl in F. rewrite F; auto.
+  - unfold h1. apply hget_app_new.
+  - unfold h1. rewrite app_length. simpl. lia.
+Qed.
